@@ -438,6 +438,24 @@ func init() {
 		return []Term{fv.w.SeqLen(c.args[1]), Null}
 	})
 	externEffects["io.WriteString"] = "content"
+	// ---- go/ast.Inspect: runs the callback; its only effects are the callback's ----
+	reg("go/ast.Inspect", "ast.Inspect(node, f): calls f some number of times (on the nodes of the tree, parents before children); has no effect of its own: exactly the variables and heap fields that f's body (and the local closures it calls) writes may change", func(fv *FuncVerifier, st *State, env *Env, c *CallCtx) []Term {
+		if lit, ok := ast.Unparen(c.call.Args[1]).(*ast.FuncLit); ok {
+			fv.havocWrites(st, env, lit.Body)
+			fv.nondet = append(fv.nondet, "ast.Inspect callback effects")
+		} else {
+			fv.havocAll(st)
+		}
+		return nil
+	})
+	externEffects["go/ast.Inspect"] = "closure"
+	reg("(*go/types.object).Type", "object.Type(): deterministic observer; for a *types.Func the result is a non-nil *types.Signature", func(fv *FuncVerifier, st *State, env *Env, c *CallCtx) []Term {
+		r := fv.uf("ext_gotypes_object_Type", SRef, "", c.recv)
+		if c.recvType != nil && types.TypeString(c.recvType, nil) == "*go/types.Func" {
+			st.Assume(And(Not(eqT(r, Null)), eqT(App(SInt, "dyn", r), fv.w.Tag("*go/types.Signature"))))
+		}
+		return []Term{r}
+	})
 	// ---- sync.Map: ghost insertion lists ----
 	reg("(*sync.Map).Store", "sync.Map.Store(k, v): records the pair (modelled as an append: callers store each key once — stated as a precondition where used)", func(fv *FuncVerifier, st *State, env *Env, c *CallCtx) []Term {
 		sr := fv.w.SeqSort(SRef)
